@@ -799,4 +799,150 @@ theorem encodeDataC_eq {t : List Desc} {prog : List Stmt} (h : ProgFor t prog) (
   rw [encodeCompressedC_eq h, encodeSubsetsC_eq h]
   rcases (if compressed = true then encodeCompressed t valss else encodeSubsets t valss []) with _ | ⟨a, b⟩ <;> rfl
 
+/-! ### operator-free templates are scope-closed -/
+
+mutual
+theorem beq_refl : ∀ (a : Stmt), Stmt.beq a a = true
+  | .loop r x => by simp only [Stmt.beq, decide_true, Bool.true_and]; exact beqList_refl x
+  | .numeric .. | .numericNewRef .. | .string .. | .codeflag .. | .newRefval .. | .constant ..
+  | .bitmapped .. | .defineBitmap .. | .state .. | .inc031031 | .reset031031 => by simp [Stmt.beq]
+theorem beqList_refl : ∀ (a : List Stmt), Stmt.beqList a a = true
+  | [] => rfl
+  | x :: xs => by simp only [Stmt.beqList, beq_refl x, beqList_refl xs, Bool.and_self]
+end
+
+mutual
+/-- no operator descriptor anywhere in the template -/
+def opFree : Desc → Bool
+  | .op _ => false
+  | .fixedRep _ ms => opFreeL ms
+  | .delayedRep _ f ms => opFree f && opFreeL ms
+  | .seq _ ms => opFreeL ms
+  | .elem _ => true
+  | .undefElem _ => true
+  | .undefSeq _ => true
+def opFreeL : List Desc → Bool
+  | [] => true
+  | d :: ds => opFree d && opFreeL ds
+end
+
+theorem cPre_init (d : Desc) (k : CRegs → CM COut) :
+    cPre d k {} = (match k {} with | .error e => .error e | .ok (p, c1) => .ok (p, c1)) := by
+  cases d <;> (simp only [cPre, dnpSkip, newRefTarget, cBitmapDefinition]; rfl)
+
+theorem cElement_init (e : Elem) : (cElement e {}).2 = {} := by
+  simp only [cElement, cQa]
+  split <;> rfl
+
+def QD (d : Desc) : Prop := ∀ p c1, cDispatch 0 d {} = .ok (p, c1) → c1 = {} ∧ cDispatch 1 d {} = .ok (p, {})
+def QL (t : List Desc) : Prop := ∀ p c1, compileList 0 t {} = .ok (p, c1) → c1 = {} ∧ compileList 1 t {} = .ok (p, {})
+
+theorem q_cons (d : Desc) (ds : List Desc) (hd : QD d) (hds : QL ds) : QL (d :: ds) := by
+  intro p c1 h
+  simp only [compileList, compile1_eq, cPre_init] at h ⊢
+  cases h1 : cDispatch 0 d {} with
+  | error e => rw [h1] at h; cases h
+  | ok y =>
+    obtain ⟨p1, c2⟩ := y
+    obtain ⟨h2, h3⟩ := hd p1 c2 h1
+    subst h2
+    rw [h1] at h; rw [h3]
+    simp only at h ⊢
+    cases h4 : compileList 0 ds {} with
+    | error e => rw [h4] at h; cases h
+    | ok z =>
+      obtain ⟨p2, c3⟩ := z
+      obtain ⟨h5, h6⟩ := hds p2 c3 h4
+      subst h5
+      rw [h4] at h; rw [h6]
+      cases h
+      exact ⟨rfl, rfl⟩
+
+theorem q_fixed (id : Nat) (ms : List Desc) (hms : QL ms) : QD (.fixedRep id ms) := by
+  intro p c1 h
+  simp only [cDispatch] at h ⊢
+  cases h1 : compileList 0 ms {} with
+  | error e => rw [h1] at h; cases h
+  | ok y =>
+    obtain ⟨body, c2⟩ := y
+    obtain ⟨h2, h3⟩ := hms body c2 h1
+    subst h2
+    rw [h1] at h; rw [h3]
+    simp at h
+    obtain ⟨h4, h5⟩ := h
+    subst h4; subst h5
+    simp [scopeOk, h3, beqList_refl]
+
+theorem q_delayed (id : Nat) (f : Desc) (ms : List Desc) (hms : QL ms) : QD (.delayedRep id f ms) := by
+  intro p c1 h
+  cases f with
+  | elem fe =>
+    simp only [cDispatch, cElement_init] at h ⊢
+    cases h1 : compileList 0 ms {} with
+    | error e => rw [h1] at h; cases h
+    | ok y =>
+      obtain ⟨body, c2⟩ := y
+      obtain ⟨h2, h3⟩ := hms body c2 h1
+      subst h2
+      rw [h1] at h; rw [h3]
+      simp at h
+      obtain ⟨h4, h5⟩ := h
+      subst h4; subst h5
+      simp [scopeOk]
+  | _ => simp only [cDispatch] at h; cases h
+
+mutual
+theorem qL : ∀ (t : List Desc), opFreeL t = true → QL t
+  | [], _ => fun p c1 h => by simp only [compileList] at h ⊢; cases h; exact ⟨rfl, rfl⟩
+  | d :: ds, h => by
+    simp only [opFreeL, Bool.and_eq_true] at h
+    exact q_cons d ds (qD d h.1) (qL ds h.2)
+theorem qD : ∀ (d : Desc), opFree d = true → QD d
+  | .elem e, _ => fun p c1 h => by
+    simp only [cDispatch] at h ⊢
+    cases h
+    refine ⟨cElement_init e, ?_⟩
+    have : cElement e {} = ((cElement e {}).1, (cElement e {}).2) := rfl
+    rw [this, cElement_init e]
+    rfl
+  | .undefElem _, _ => fun p c1 h => by simp only [cDispatch] at h; cases h
+  | .undefSeq _, _ => fun p c1 h => by simp only [cDispatch] at h; cases h
+  | .fixedRep id ms, h => q_fixed id ms (qL ms (by simpa only [opFree] using h))
+  | .delayedRep id f ms, h => q_delayed id f ms (qL ms (by simp only [opFree, Bool.and_eq_true] at h; exact h.2))
+  | .op _, h => by simp [opFree] at h
+  | .seq _ ms, h => fun p c1 hc => by
+    simp only [cDispatch] at hc ⊢
+    exact qL ms (by simpa only [opFree] using h) p c1 hc
+end
+
+/-- an operator-free template that compiles is `scopeClosed` -/
+theorem scopeClosed_of_opFree (t : List Desc) (h : opFreeL t = true) (prog : List Stmt) (hc : compile t = .ok prog) :
+    scopeClosed t = true := by
+  unfold compile at hc
+  cases h1 : compileList 0 t {} with
+  | error e => rw [h1] at hc; cases hc
+  | ok y =>
+    obtain ⟨p, c1⟩ := y
+    obtain ⟨_, h3⟩ := qL t h p c1 h1
+    exact (scopeClosed_iff t).mpr ⟨p, {}, h3⟩
+
+
+mutual
+/-- every operator descriptor of the template satisfies `ok` -/
+def opsWithin (ok : Nat → Bool) : Desc → Bool
+  | .op id => ok id
+  | .fixedRep _ ms => opsWithinL ok ms
+  | .delayedRep _ f ms => opsWithin ok f && opsWithinL ok ms
+  | .seq _ ms => opsWithinL ok ms
+  | .elem _ => true
+  | .undefElem _ => true
+  | .undefSeq _ => true
+def opsWithinL (ok : Nat → Bool) : List Desc → Bool
+  | [] => true
+  | d :: ds => opsWithin ok d && opsWithinL ok ds
+end
+
+/-- the operators of stage B: 201-208 and 221 -/
+def stageBOp (id : Nat) : Bool := (201 ≤ id / 1000 && id / 1000 ≤ 208) || id / 1000 == 221
+
 end Bufr.C08W
